@@ -185,7 +185,9 @@ func doRangeCheckForCol(segMicroIndex *metadata.SegmentMicroIndex, blockToCheck 
 	var matchedBlockRange bool
 	for colName := range colsToCheck {
 		colCMI, err := segMicroIndex.GetCMIForBlockAndColumn(blockToCheck, colName, qid)
-		if err == metadata.ErrCMIColNotFound && rangeOp == sutils.NotEquals {
+		if rangeOp == sutils.NotEquals {
+			// A record that does not have the column satisfies != and the range index does
+			// not know about such records: the block cannot be skipped, whatever the cmi says.
 			matchedBlockRange = true
 			timeFilteredBlocks[blockToCheck][colName] = true
 			continue
